@@ -111,7 +111,7 @@ def reference(order, periods, events, stamps, add=lambda a, b: a + b):
     is still scheduled and the tick's time is at least its due time, at most once, in order;
     after a run its due time advances by its period as it is then (so a bid's period applies
     from the next reschedule); an aborted tasker leaves for good.
-    Returns (runs per tick, canonical states per tick)."""
+    Returns (runs per tick, canonical states per tick, names still scheduled at the end)."""
     due = {n: stamps[0] for n in order}
     per = dict(periods)
     alive = list(order)
@@ -144,7 +144,7 @@ def reference(order, periods, events, stamps, add=lambda a, b: a + b):
                 due[n] = add(due[n], per[n])
         out.append(ran)
         states.append(tuple((n, due[n] - S, per[n]) for n in alive))
-    return out, states
+    return out, states, list(alive)
 
 
 # --------------------------------------------------------------------------- real run
@@ -235,10 +235,11 @@ def check_cfg(cfg, H, p):
     # entries logged after the horizon interrupt belong to the skedder's final abort sweep (C03)
     mark = res.mark if res.mark is not None else len(log)
     passes, swept = log[:mark], log[mark:]
+    ended_itself = res.mark is None
     ticks = [[] for _ in stamps]
     fperiods = {n: float(m * T) for n, m in zip(names, mults)}
     fevents = tuple((a, j, kind, tg, None if new is None else max(0.0, float(new * T))) for a, j, kind, tg, new in events)
-    ref, _ = reference(order, fperiods, fevents, stamps)
+    ref, _, alive_end = reference(order, fperiods, fevents, stamps)
     idx = {s: i for i, s in enumerate(stamps)}
     if len(idx) != len(stamps):
         p.violation("stamps-not-increasing", cs, "tick stamps repeat: %r" % (stamps,), dict(config=cs, stamps=stamps))
@@ -249,6 +250,14 @@ def check_cfg(cfg, H, p):
                         dict(config=cs, stamps=stamps))
             return
         ticks[idx[stamp]].append((name, control))
+    if ended_itself and alive_end:
+        # no tasker in these configurations ever stops, so the run may only end by itself when every
+        # tasker has aborted; here it ended (before the horizon interrupt) with taskers still scheduled
+        p.violation("run-length|ended-with-scheduled-running-taskers", cs,
+                    "run ended by itself after %d tick(s) although %r were still scheduled and running; log %r"
+                    % (len(stamps), alive_end, log[:8]),
+                    dict(config=cs, stamps=stamps, log=log[:40]))
+        return
     # dyadic grid: observed stamps must be the arithmetic ideal exactly
     exact = T in DYADIC
     if exact:
@@ -286,7 +295,7 @@ def check_cfg(cfg, H, p):
         # arithmetic ideal: the same recurrence in exact rationals over ideal stamps
         iperiods = {n: m * T for n, m in zip(names, mults)}
         ievents = tuple((a, j, kind, tg, None if new is None else new * T) for a, j, kind, tg, new in events)
-        iref, istates = reference(order, iperiods, ievents, ideal)
+        iref, istates, _ = reference(order, iperiods, ievents, ideal)
         if iref != ref:
             p.violation("float-recurrence-differs-from-ideal-on-dyadic-grid", cs, "harness arithmetic inexact", dict(config=cs))
             return
@@ -297,7 +306,7 @@ def check_cfg(cfg, H, p):
         ideal = [F(t0m) * T + j * T for j in range(len(stamps))]
         iperiods = {n: m * T for n, m in zip(names, mults)}
         ievents = tuple((a, j, kind, tg, None if new is None else new * T) for a, j, kind, tg, new in events)
-        iref, istates = reference(order, iperiods, ievents, ideal)
+        iref, istates, _ = reference(order, iperiods, ievents, ideal)
         for st in istates:
             p.nontrivial(repr(tuple((n, d / T, q / T) for n, d, q in st)))
         if iref != ref:
@@ -375,7 +384,7 @@ def check_flo(prog, H, p):
                     "only %d ticks had any framer run (stamps %r); both framers are due from the start time on" % (len(stamps), stamps),
                     dict(program=text, tick_period=float(T), controls=res.controls[:20]))
         return
-    ref, states = reference(order, {"ctl": 0.0, "tgt": float(p1 * T)},
+    ref, states, _ = reference(order, {"ctl": 0.0, "tgt": float(p1 * T)},
                             (("ctl", j, "bid-period", "tgt", float(p2 * T)),), stamps)
     idx = {s: i for i, s in enumerate(stamps)}
     ticks = [[] for _ in stamps]
